@@ -1,7 +1,30 @@
 import TTV.Sexp
-/-! Driver glue for C10 — stub, replaced when the property's model is built. -/
+import TTV.Model.Stream
+import TTV.Spec.C10
+import TTV.Drv.StreamCodec
+/-! Driver glue for C10: input = `(run…)`, run = `(event…)`; trace = `(runTrace…)`,
+runTrace = `(dict summary ext)`, summary = `(testsRun errors failures skipped xfails uxsuccesses wasSuccessful)`. -/
 namespace TTV.Drv.C10
-open TTV
+open TTV TTV.Sexp TTV.Stream TTV.Drv.StreamCodec
 
-def handle (_ : List Sexp) : Sexp := .atom "unimplemented"
+def input? (s : Sexp) : Option Input := do some { runs := ← list? (list? event?) s }
+
+def summary? : Sexp → Option Summary
+  | .list [a, b, c, d, e, f, g] => do
+      some { testsRun := ← nat? a, errors := ← list? nat? b, failures := ← list? nat? c, skipped := ← list? nat? d,
+             expectedFailures := ← list? nat? e, unexpectedSuccesses := ← list? nat? f, wasSuccessful := ← bool? g }
+  | _ => none
+def ofSummary (s : Summary) : Sexp :=
+  .list [ofNat s.testsRun, ofList ofNat s.errors, ofList ofNat s.failures, ofList ofNat s.skipped,
+         ofList ofNat s.expectedFailures, ofList ofNat s.unexpectedSuccesses, ofBool s.wasSuccessful]
+
+def runTrace? : Sexp → Option RunTrace
+  | .list [a, b, c] => do some { dict := ← list? report? a, summary := ← summary? b, ext := ← list? extEv? c }
+  | _ => none
+def ofRunTrace (t : RunTrace) : Sexp := .list [ofList ofReport t.dict, ofSummary t.summary, ofList ofExtEv t.ext]
+
+def drv : PropDrv Input Trace :=
+  { decI := input?, decT := list? runTrace?, encT := ofList ofRunTrace, model := model, clauses := Spec.C10.clauses }
+
+def handle : List Sexp → Sexp := drv.handle
 end TTV.Drv.C10
